@@ -243,6 +243,14 @@ func runC16RaceCase(client bool, first, second string) (string, string) {
 		c.CloseRead(bg)
 		close(readerDone)
 	} else {
+		if first == "close-after-failed-pings" {
+			// control-frame writes that give up on their context while the frame lock is held by the stuck writer
+			for i := 0; i < 3; i++ {
+				pctx, pc := context.WithTimeout(bg, 15*time.Millisecond)
+				c.Ping(pctx)
+				pc()
+			}
+		}
 		go func() { closeRet <- c.Close(websocket.StatusNormalClosure, "bye") }()
 		time.Sleep(30 * time.Millisecond)
 		go func() {
@@ -296,14 +304,25 @@ func runC16RaceCase(client bool, first, second string) (string, string) {
 	case <-peerDone:
 	case <-time.After(4 * time.Second):
 	}
-	closes := 0
-	for _, f := range trace {
+	closes, closeAt := 0, -1
+	for i, f := range trace {
 		if f.Op == 8 {
 			closes++
+			if closeAt < 0 {
+				closeAt = i
+			}
+		} else if closeAt >= 0 && f.Op <= 2 {
+			return "data-frame-after-close", fmt.Sprintf("client=%v first=%s second=%s: data frame %d (op %d, %d bytes) follows the Close frame at %d; trace ops %s", client, first, second, i, f.Op, len(f.Payload), closeAt, opsOf(trace))
 		}
 	}
 	if closes > 1 {
 		return "second-close-frame", fmt.Sprintf("client=%v first=%s second=%s: %d Close frames on the wire; trace ops %s", client, first, second, closes, opsOf(trace))
+	}
+	if rest := peer.leftover(); len(rest) > 0 {
+		return "bytes-after-close", fmt.Sprintf("client=%v first=%s second=%s: the emitted stream ends with %d bytes that are not a whole frame (every write had been released and had time to finish); trace ops %s", client, first, second, len(rest), opsOf(trace))
+	}
+	if closes == 0 {
+		return "close-frame-missing", fmt.Sprintf("client=%v first=%s second=%s: a close was initiated and every write was released, but no Close frame can be decoded from the emitted stream; trace ops %s", client, first, second, opsOf(trace))
 	}
 	return "", ""
 }
@@ -390,7 +409,7 @@ func runC16(ctx *runCtx) {
 	}
 	// two close initiators queued behind a stuck frame write
 	for _, client := range []bool{true, false} {
-		for _, pr := range [][2]string{{"close", "proto-error"}, {"close", "read-limit"}, {"close", "peer-close"}, {"closeread", "data"}} {
+		for _, pr := range [][2]string{{"close", "proto-error"}, {"close", "read-limit"}, {"close", "peer-close"}, {"closeread", "data"}, {"close-after-failed-pings", "none"}} {
 			client, pr := client, pr
 			sh, w := guarded(40*time.Second, func() (string, string) { return runC16RaceCase(client, pr[0], pr[1]) })
 			rep.eval(fmt.Sprintf("racing-closers/%v/%s/%s", client, pr[0], pr[1]))
